@@ -182,7 +182,21 @@ func (c *rconn) build(r reply, req []byte, n int) []byte {
 	if r.Sid == "B" {
 		sid = 2
 	}
-	m.AddOption(dhcpv6.OptServerID(&dhcpv6.DUIDEN{EnterpriseNumber: 4242, EnterpriseIdentifier: []byte{sid, byte(n)}}))
+	// servers identify themselves with any kind of DUID
+	var sduid dhcpv6.DUID
+	switch (n + int(sid)) % 4 {
+	case 0:
+		sduid = &dhcpv6.DUIDEN{EnterpriseNumber: 4242, EnterpriseIdentifier: []byte{sid, byte(n)}}
+	case 1:
+		sduid = &dhcpv6.DUIDLLT{HWType: 1, Time: 0x2a000000 + uint32(n), LinkLayerAddr: net.HardwareAddr{2, 0, 0, 0, sid, byte(n)}}
+	case 2:
+		sduid = &dhcpv6.DUIDLL{HWType: 6, LinkLayerAddr: net.HardwareAddr{2, 0, 0, 0, sid, byte(n)}}
+	default:
+		u := &dhcpv6.DUIDUUID{}
+		copy(u.UUID[:], []byte{sid, byte(n), 3, 4, 5, 6, 7, 8, 9, 10, 11, 12, 13, 14, 15, 16})
+		sduid = u
+	}
+	m.AddOption(dhcpv6.OptServerID(sduid))
 	// lifetimes over the whole 32-bit range of seconds, "infinity" included
 	life := func(k int) time.Duration {
 		return time.Duration([]uint32{3600, 0xffffffff, 0, 0x80000000, 7200, 0xfffffffe}[(k+n+r.A)%6]) * time.Second
@@ -195,10 +209,25 @@ func (c *rconn) build(r reply, req []byte, n int) []byte {
 	if !r.Ok {
 		if n%2 == 0 {
 			m.TransactionID[2] ^= 0x55
-		} else if n%4 == 1 {
+		} else if n%8 == 1 {
 			return []byte{} // a zero-length datagram
-		} else {
+		} else if n%8 == 5 {
 			return []byte{byte(mt), 1}
+		} else {
+			// well framed, but an option of a known type breaks its own layout rule (C05: such a message does not decode):
+			// a server identifier of DUID type 4 with 17 / 18 octets, an IA_NA cut short
+			bad := dhcpv6.Options{}
+			for _, o := range m.Options.Options {
+				switch {
+				case o.Code() == dhcpv6.OptionServerID && n%8 == 3:
+					bad = append(bad, &dhcpv6.OptionGeneric{OptionCode: dhcpv6.OptionServerID, OptionData: append([]byte{0, 4}, make([]byte, 17+n%2)...)})
+				case o.Code() == dhcpv6.OptionIANA && n%8 == 7:
+					bad = append(bad, &dhcpv6.OptionGeneric{OptionCode: dhcpv6.OptionIANA, OptionData: o.ToBytes()[:11]})
+				default:
+					bad = append(bad, o)
+				}
+			}
+			m.Options.Options = bad
 		}
 	}
 	return m.ToBytes()
